@@ -213,6 +213,9 @@ func (f *Filter) Equals(other *Filter) bool {
 	if f.stringVal != other.stringVal {
 		return false
 	}
+	if f.customTag != other.customTag {
+		return false
+	}
 	if f.negate != other.negate {
 		return false
 	}
